@@ -74,6 +74,7 @@ class TlcResult:
         self.generated = 0
         self.distinct = 0
         self.cases = []          # parsed CASE payloads
+        self.ncases = 0          # CASE lines printed by TLC (before sampling)
         self.lines = []          # other output lines
         self.ok = False
         self.violated = None     # invariant / property name reported by TLC
@@ -84,7 +85,7 @@ class TlcResult:
 
 def tlc(module, cfg=None, workers=8, env=None, timeout=600, simulate=None, depth=None,
         seed=None, deque=False, xmx="6g", coverage=False, on_case=None, tag="CASE", extra=None,
-        keep_cases=True):
+        keep_cases=True, sample=None):
     """Run TLC on spec/<module>.tla with spec/<cfg>.cfg.  CASE lines are parsed (and streamed to
     `on_case` if given)."""
     os.makedirs(WORK, exist_ok=True)
@@ -118,6 +119,12 @@ def tlc(module, cfg=None, workers=8, env=None, timeout=600, simulate=None, depth
     for line in p.stdout:
         line = line.rstrip("\n")
         if line.startswith(prefix) and line.endswith('">>'):
+            r.ncases += 1
+            if sample is not None:
+                # seeded sub-sampling decided on the raw line, before any JSON parsing
+                import zlib
+                if zlib.crc32(line.encode()) % sample[0] != sample[1] % sample[0]:
+                    continue
             payload = line[len(prefix) - 1:-2]
             try:
                 obj = json.loads(json.loads(payload))
@@ -146,6 +153,29 @@ def tlc(module, cfg=None, workers=8, env=None, timeout=600, simulate=None, depth
         raise ToolError("TLC timed out on %s/%s after %ss" % (module, cfg, timeout))
     r.ok = (r.rc == 0 and r.violated is None)
     return r
+
+
+def tlc_many(runs, parallel=3):
+    """runs: list of kwargs dicts for tlc(); executed `parallel` at a time; results in order."""
+    import threading
+    out = [None] * len(runs)
+    sem = threading.Semaphore(parallel)
+
+    def work(i):
+        with sem:
+            try:
+                out[i] = tlc(**runs[i])
+            except Exception as e:  # noqa
+                out[i] = e
+    ths = [threading.Thread(target=work, args=(i,)) for i in range(len(runs))]
+    for t in ths:
+        t.start()
+    for t in ths:
+        t.join()
+    for r in out:
+        if isinstance(r, Exception):
+            raise r
+    return out
 
 
 def tlc_expect_ok(res, what):
